@@ -1,4 +1,5 @@
 import Props.C01
+import Props.C01RS
 #print axioms C01.delta_correct
 #print axioms C01.export_rule
 #print axioms C01.never_back_to_source
@@ -6,3 +7,12 @@ import Props.C01
 #print axioms C01.no_nonclient_to_nonclient
 #print axioms C01.withdraw_iff_exportable
 #print axioms C01.C01_quiescent
+#print axioms C01RS.delta_correct_rs
+#print axioms C01RS.C01RS_quiescent
+#print axioms C01RS.rs_want_closed
+#print axioms C01RS.rs_holds_only_its_best
+#print axioms C01RS.rs_nothing_missing
+#print axioms C01RS.rs_table_only_client_routes
+#print axioms C01RS.client_event_leaves_ordinary_group
+#print axioms C01RS.ordinary_event_leaves_client_group
+#print axioms C01RS.pinned_stuck_route
